@@ -168,10 +168,28 @@ def malformed_case(r):
     return case
 
 
+KINDS = [("s", False, False), ("s", True, False), (2, False, False), (2, True, False), (2, False, True), (2, True, True)]
+
+
+def small_scope_layouts(max_vars=3):
+    """Every list of 1..max_vars variables over the six kinds (scalar / vector x linear / logarithmic x shared /
+    per-component boundaries): 6 + 36 + 216 layouts."""
+    import itertools
+    out = []
+    for n in range(1, max_vars + 1):
+        out += [list(t) for t in itertools.product(KINDS, repeat=n)]
+    return out
+
+
 def gen_history(r, layout=None, n_ops=None):
     """A history on shared objects: several problem constructions from the same ParameterValues objects and the
     same processor, interleaved with get_bounds / convert_to_parameters / fitness / update_processor on any of
     the problems built so far."""
+    if layout is None:
+        layout = [(None, None, None)] * r.choice([1, 2, 2, 3, 3, 4])
+        if r.random() < 0.5:
+            # the kind whose arrays are views on the kept boundaries: a logarithmic vector with its own pairs
+            layout[r.randrange(len(layout))] = (r.choice([2, 3, 4]), True, True)
     case = make_case(r, layout)
     comps = []
     for v in case["vars"]:
@@ -228,6 +246,9 @@ HIST_LAYOUTS = [FIXED_LAYOUTS[k] for k in (2, 3, 4, 6, 7, 1, 10, 8)]
 def gen_histories(ctx: Ctx, n_hist: int, calib2s: list):
     r = ctx.rng("histories")
     cases = [gen_history(r, lay) for lay in HIST_LAYOUTS]
+    if not ctx.quick:
+        # exhaustive small scope: every list of 1..2 variables over the six kinds, one fixed-shape history each
+        cases += [gen_history(r, lay, n_ops=5) for lay in small_scope_layouts(2)]
     while len(cases) < n_hist:
         cases.append(gen_history(r))
     for k, runs in enumerate(calib2s):
@@ -243,6 +264,9 @@ def gen_cases(ctx: Ctx, n_direct: int, n_malformed: int, calibs: list):
     for lay in FIXED_LAYOUTS:
         cases.append(make_case(r, lay))
         cases.append(make_case(r, lay))
+    if not ctx.quick:
+        # exhaustive small scope: every list of 1..3 variables over the six kinds
+        cases += [make_case(r, lay) for lay in small_scope_layouts(3)]
     while len(cases) < n_direct:
         cases.append(make_case(r))
     for _ in range(n_malformed):
@@ -561,6 +585,11 @@ def correspondence(ctx: Ctx, cases, tag="c", workers=8):
         ctx.count("histories")
         ctx.dist("mode", c["mode"])
         ctx.dist("history_builds", sum(1 for st in steps if st["op"] == "build"))
+        ctx.dist("history_has_log_vector_per_component",
+                 any(v["n"] is not None and v["log"] and v["bnd"] and v["bnd"][0] == "per" for v in c["vars"]))
+        ctx.dist("history_reuses_earlier_problem_after_later_build", any(
+            st["op"] != "build" and st.get("pid", 0) < sum(1 for t in steps[:k] if t["op"] == "build") - 1
+            for k, st in enumerate(steps)))
         ctx.dist("history_steps", min(len(steps), 14) if c["mode"] == "hist" else "calibration runs")
         for st in steps:
             ctx.dist("history_op", st.get("tag") or st["op"])
